@@ -1187,12 +1187,26 @@ func (m *Nitro) LoadFromDisk(dir string, concurr int, callb ItemCallback) (*Snap
 	if bs, err = ioutil.ReadFile(filepath.Join(datadir, "files.json")); err != nil {
 		return nil, err
 	}
-	json.Unmarshal(bs, &files)
+	if err = json.Unmarshal(bs, &files); err != nil {
+		return nil, err
+	}
 
+	// Backups written before checksums were introduced have no checksums
+	// file: their shards are not verified. If the file exists every shard is
+	// verified against it, including empty shards (checksum 0).
+	var hasChecksums bool
 	if bs, err := ioutil.ReadFile(filepath.Join(datadir, "checksums.json")); err == nil {
-		json.Unmarshal(bs, &checksums)
-	} else {
+		if err = json.Unmarshal(bs, &checksums); err != nil {
+			return nil, err
+		}
+		if len(checksums) != len(files) {
+			return nil, ErrCorruptSnapshot
+		}
+		hasChecksums = true
+	} else if os.IsNotExist(err) {
 		checksums = make([]uint32, len(files))
+	} else {
+		return nil, err
 	}
 
 	var nodeCallb skiplist.NodeCallback
@@ -1273,7 +1287,7 @@ func (m *Nitro) LoadFromDisk(dir string, concurr int, callb ItemCallback) (*Snap
 	wg.Wait()
 	venter(SiteLoadWait, vt)
 	for i, rdr := range readers {
-		if checksums[i] != 0 && checksums[i] != rdr.Checksum() {
+		if (hasChecksums || checksums[i] != 0) && checksums[i] != rdr.Checksum() {
 			return nil, ErrCorruptSnapshot
 		}
 	}
@@ -1302,15 +1316,30 @@ func (m *Nitro) LoadFromDisk(dir string, concurr int, callb ItemCallback) (*Snap
 		deltadir := filepath.Join(dir, "delta")
 		var files []string
 		if bs, err := ioutil.ReadFile(filepath.Join(deltadir, "files.json")); err == nil {
-			json.Unmarshal(bs, &files)
+			if err = json.Unmarshal(bs, &files); err != nil {
+				return nil, err
+			}
+		} else if _, serr := os.Stat(deltadir); serr == nil || !os.IsNotExist(err) {
+			// A delta directory without a readable manifest is a damaged
+			// backup (a backup without delta files has no delta directory)
+			return nil, err
 		}
 
 		readers := make([]FileReader, len(files))
 		errors := make([]error, len(files))
 		writers := make([]*Writer, concurr)
 		deltaChecksums := make([]uint32, len(files))
+		var hasDeltaChecksums bool
 		if bs, err := ioutil.ReadFile(filepath.Join(deltadir, "checksums.json")); err == nil {
-			json.Unmarshal(bs, &deltaChecksums)
+			if err = json.Unmarshal(bs, &deltaChecksums); err != nil {
+				return nil, err
+			}
+			if len(deltaChecksums) != len(files) {
+				return nil, ErrCorruptSnapshot
+			}
+			hasDeltaChecksums = true
+		} else if !os.IsNotExist(err) {
+			return nil, err
 		}
 
 		defer func() {
@@ -1393,7 +1422,7 @@ func (m *Nitro) LoadFromDisk(dir string, concurr int, callb ItemCallback) (*Snap
 		venter(SiteLoadWait, vt)
 
 		for i, rdr := range readers {
-			if deltaChecksums[i] != 0 && deltaChecksums[i] != rdr.Checksum() {
+			if (hasDeltaChecksums || deltaChecksums[i] != 0) && deltaChecksums[i] != rdr.Checksum() {
 				return nil, ErrCorruptSnapshot
 			}
 		}
